@@ -28,6 +28,10 @@ RULE = (
     "edit through the same handle after a propagated error must not resurrect the refused change. Non-trivial and distinct = distinct (operation, scenario, step, fault) runs in "
     "which the fault actually fired."
 )
+RULE += (
+    " " + 'Added later: a persistent cache from an earlier session, check() asked with and without it; os.stat / os.lstat as fault points; handles opened by id that read their state point as first step; removals through a handle that has used its document; after a failed removal whatever remains has its old content.'
+    " In every third case DEBUG logging is effective for the package."
+)
 ASSUMPTIONS = [
     "A crash is process death with kernel state intact; ENOENT is not injected (signac reads it as 'not there').",
     "remove / clear / reset are removals: losing (part of) the affected job's data is their purpose; the other clauses still apply.",
